@@ -272,6 +272,10 @@ func c13Case(r *evid.Run, tier string, idx int, g *rng.R) {
 			full[i] = sentinel
 		}
 		held = append(held, hold(rev, label+"/rev+spare"))
+		// arbitrary order
+		sh := append(xsel.NodeSet{}, base...)
+		rng.Shuffle(g, sh)
+		held = append(held, hold(sh, label+"/shuffled"))
 		// forward copy and a sub-slice of it (shares the backing array, spare capacity = rest of the array)
 		fw := append(xsel.NodeSet{}, base...)
 		held = append(held, hold(fw, label+"/fwd"))
